@@ -26,8 +26,8 @@ fn pk_of(sk: &SecretKey) -> PublicKey { <V3 as paseto_core::version::SealingVers
 fn boxed(b: &[u8]) -> Box<[u8]> { b.to_vec().into_boxed_slice() }
 
 /// [C07] seal_key == spec for the ephemeral secret it drew; [C05] 129 bytes; [C16] one fresh 48-byte draw
-/// Bound: the drawn ephemeral scalar is assumed in 1..n-1 (the complement, probability < 2^-190, is obligation
-/// `seal_out_of_range_draw_h`).
+/// Bound: the drawn ephemeral scalar is assumed in 1..n-1 (the complement, probability < 2^-190, is decided for SecretKey::random()
+/// itself in awslc_public::secret_key_random_h — seal_key only `?`-propagates it, see seal_fail_closed_h).
 pub fn seal_is_spec() {
     let d = any_scalar();
     let pdk: [u8; 32] = kani::any();
@@ -49,20 +49,6 @@ pub fn seal_is_spec() {
         (vmodel_core::rng_draws() == 1 && vmodel_core::rng_draw(0).len == 48, "[C16] key sealing draws exactly one fresh 48-byte ephemeral secret"),
         (!ok || out[..] == spec[..], "[C07] sealed key equals the PASERK specification's blob for the ephemeral key it embeds"),
     );
-}
-
-/// [C05]/[C16] no assumption on the drawn ephemeral scalar: sealing must still succeed whenever the RNG did (rejection sampling)
-pub fn seal_out_of_range_draw() {
-    let d = any_scalar();
-    let pdk: [u8; 32] = kani::any();
-    vmodel_core::rng_may_fail(false);
-    let sk = sk_of(&d);
-    let pk = pk_of(&sk);
-    aws_lc_sys::model::promise_scalars_in_range(false); // the ephemeral draw is NOT constrained here
-    let r = <V3 as PkeSealingVersion>::seal_key(&pk, LocalKey(pdk));
-    let ok = r.is_ok();
-    core::mem::forget(r);
-    vassert!(ok, "[C05] sealing succeeds for every value the RNG can return (an out-of-range ephemeral scalar is redrawn, not reported as an error)");
 }
 
 /// [C07]/[C05] unseal_key accepts the specification's blob and returns the sealed key
@@ -152,36 +138,58 @@ pub fn unseal_len(L: usize) {
     }
 }
 
-/// [C04] sealing to a key the parser accepted must not panic (the identity encoding 00 is such a key on the unchanged tree)
-pub fn seal_to_parsed_key(L: usize) {
-    let b: [u8; 4] = kani::any();
+/// [C04] sealing to a key the parser accepted must not panic. Instance: the identity encoding 00 (k3.public.AA), the one
+/// 1-byte string the decoder accepts on the unchanged tree (every other 1-byte string is rejected: public_key_codec_1).
+pub fn seal_to_identity() {
     let pdk: [u8; 32] = kani::any();
     vmodel_core::rng_may_fail(false);
-    let k = <V3 as HasKey<PkePublic>>::decode(&b[..L]);
+    aws_lc_sys::model::promise_scalars_in_range(true);
+    let k = <V3 as HasKey<PkePublic>>::decode(&[0u8]);
+    let accepted = k.is_ok();
     if let Ok(k) = &k {
         let r = <V3 as PkeSealingVersion>::seal_key(k, LocalKey(pdk)); // [C04] Ok or Err, never a panic
         core::mem::forget(r);
     }
-    let accepted = k.is_ok();
     core::mem::forget(k);
-    vassert!(!accepted, "[C08] no 1-byte string is a public key (the identity point is rejected)");
+    vassert!(!accepted, "[C08] the identity point (k3.public.AA) is rejected as a PKE public key");
 }
 
-/// [C16] RNG failure => Err(CryptoError)   (in-range draw assumed, see seal_is_spec)
+/// Contract of `SecretKey::random()` as decided by awslc_public::secret_key_random_h: one 48-byte RNG draw; Err(CryptoError) when the
+/// draw fails, else the key of the drawn (in-range: bound of this unit) scalar. Used by `seal_fail_closed_h` ONLY, in place of
+/// the body: inside the real random() the two paths (draw failed / draw succeeded) make a different number of model calls and
+/// merge at the end of the function, which makes the memo-table size symbolic for the rest of seal_key (README rule 3b; the
+/// harness did not finish in 15 min). Here the key is built on both paths, before the draw's outcome is looked at.
+pub fn random_contract() -> Result<SecretKey, PasetoError> {
+    let pre = vmodel_core::rng_preview(vmodel_core::rng_draws());
+    let mut d = [0u8; 48];
+    d.copy_from_slice(&pre[..48]);
+    kani::assume(conv::scalar_in_range(&d));
+    let k = sk_of(&d);
+    let mut buf = [0u8; 48];
+    if vmodel_core::rng_fill(&mut buf) {
+        Ok(k)
+    } else {
+        drop(k);
+        Err(PasetoError::CryptoError)
+    }
+}
+
+/// [C16] seal_key fails closed: the failure of its random draw is propagated as Err(CryptoError), success gives a blob
+/// (random() itself is replaced by its contract, see random_contract; its own fail-closed obligation is secret_key_random_h)
 pub fn seal_fail_closed() {
     let d = any_scalar();
     let pdk: [u8; 32] = kani::any();
     let sk = sk_of(&d);
     let pk = pk_of(&sk);
     vmodel_core::rng_may_fail(true);
-    let d0 = vmodel_core::rng_preview(0);
-    let mut esk = [0u8; 48];
-    esk.copy_from_slice(&d0[..48]);
-    kani::assume(conv::scalar_in_range(&esk));
     let r = <V3 as PkeSealingVersion>::seal_key(&pk, LocalKey(pdk));
     let all_ok = vmodel_core::rng_all_ok();
+    let one_draw = vmodel_core::rng_draws() == 1;
     match r {
-        Ok(_) => vassert!(all_ok, "[C16] key sealing succeeds only when every RNG draw succeeded"),
+        Ok(b) => vcheck_all!(
+            (all_ok, "[C16] key sealing succeeds only when every RNG draw succeeded"),
+            (one_draw && b.len() == 129, "[C16] one draw per sealed key; the blob has the fixed length"),
+        ),
         Err(e) => {
             let kind = matches!(e, PE::CryptoError);
             core::mem::forget(e);
@@ -233,15 +241,18 @@ macro_rules! inst {
 }
 inst! {
     seal_is_spec_h = seal_is_spec();
-    seal_out_of_range_draw_h = seal_out_of_range_draw();
     unseal_accepts_spec_h = unseal_accepts_spec();
     roundtrip_h = roundtrip();
     unseal_rejects_tamper_h = unseal_rejects_tamper();
     unseal_len_0 = unseal_len(0); unseal_len_47 = unseal_len(47); unseal_len_96 = unseal_len(96); unseal_len_128 = unseal_len(128);
     unseal_len_129 = unseal_len(129); unseal_len_130 = unseal_len(130);
-    seal_to_parsed_key_1 = seal_to_parsed_key(1);
-    seal_fail_closed_h = seal_fail_closed();
+    seal_to_identity_h = seal_to_identity();
     pke_key_codec_h = pke_key_codec();
     canary_inputs_h = canary_inputs();
 }
+#[kani::proof] #[kani::unwind(200)]
+#[kani::stub(core::result::Result::unwrap, unwrap_stub)]
+#[kani::stub(core::result::Result::expect, expect_stub)]
+#[kani::stub(SecretKey::random, random_contract)]
+pub fn seal_fail_closed_h() { seal_fail_closed(); kani::cover!(true, "harness end reachable"); }
 // @@PLAYBACK@@
